@@ -10,12 +10,19 @@ import SqlgrepModel.Drivers.ParseStmt
 import SqlgrepModel.Drivers.ParseExpr
 import SqlgrepModel.Drivers.Pipeline
 import SqlgrepModel.Drivers.JsonText
+import SqlgrepModel.Drivers.F64Parse
+import SqlgrepModel.Drivers.FactCheck
+import SqlgrepModel.Drivers.JsonDocD
 /- Line protocol driver: `<kind> <payload…>` per line in, one answer line out. -/
 open Sqlgrep
 
 def dispatch (line : String) : String :=
   match Sexp.parseAll line with
   | some (.atom kind :: args) =>
+    -- shipped library facts are first compared with what the Lean model predicts (Drivers/FactCheck.lean)
+    match Drivers.FactCheck.check kind args with
+    | some mismatch => mismatch
+    | none =>
     match kind with
     | "cmp3" => Drivers.C16.handle args
     | "eval" => Drivers.Eval.handle args
@@ -39,6 +46,8 @@ def dispatch (line : String) : String :=
     | "pexpr" => Drivers.ParseExpr.handle args
     | "e2e" => Drivers.Pipeline.handle args
     | "jsontext" => Drivers.JsonText.handle args
+    | "f64parse" => Drivers.F64Parse.handle args
+    | "jsondoc" => Drivers.JsonDocD.handle args
     | _ => "unknown-kind"
   | _ => "bad-line"
 
